@@ -616,7 +616,7 @@ func (s *w24) exec(line string) {
 		s.c.Distinct(line + "@" + fmt.Sprint(s.chain))
 	}
 	for _, f := range s.fails {
-		s.c.Fail(f[0], f[1])
+		capFail(s.c, f[0], f[1])
 	}
 }
 
